@@ -136,3 +136,66 @@ Proof. exact add_scalar_field_range_rejected_R. Qed.
 Example add_scalar_field_range_repaired :
   build variant_repaired (SAddC (SLeaf (LIP 0 [1%R])) 1%R) = Ok (OVecSum (OLeaf (LIP 0 [1%R])) [1%R]).
 Proof. reflexivity. Qed.
+
+(* T1 (acceptance).  [wt] = well-typed by the documented rules of the overloads (ranges/domains
+   match, v in A.range / A.domain, n > 0 and A.range = A.domain for n > 1, a <> 0 for A / a);
+   [sfunc] = "the result is a Functional".  The overloads never accept an ill-typed expression: *)
+Theorem accept_sound : forall (T : Type) (N : Num T),
+  ring_theory nzero none_ nadd nmul nsub nopp (@eq T) ->
+  (forall u c : T, ndiv u c = nmul (ndiv none_ c) u) ->
+  (forall a b : T, neqb a b = true -> a = b) ->
+  forall (vt : variant) (s : sexpr T) (o : oexpr T), sleaves_ok s -> build vt s = Ok o -> wt s = true.
+Proof. exact @Proofs.accept_sound. Qed.
+Print Assumptions accept_sound.
+
+Theorem build_func : forall (T : Type) (N : Num T) (vt : variant) (s : sexpr T) (o : oexpr T),
+  build vt s = Ok o -> ofunc o = sfunc s.
+Proof. exact @Proofs.build_func. Qed.
+Print Assumptions build_func.
+
+(* THE PROPERTY IN ONE STATEMENT.  Every well-typed expression of any depth is accepted, the
+   built object has the implied domain/range/kind, and it evaluates out-of-place and in-place
+   to the table value at every point.  [scalar_add_ok vt s] excludes, for the CURRENT code only,
+   `A + a` on a field-valued operator A that is not a Functional (recorded finding
+   add-scalar-to-field-valued-operator-raises, see add_scalar_field_range_rejected); it is
+   vacuous for the repaired OperatorVectorSum (next theorem). *)
+Theorem well_typed_evaluates : forall (T : Type) (N : Num T),
+  ring_theory nzero none_ nadd nmul nsub nopp (@eq T) ->
+  (forall u c : T, ndiv u c = nmul (ndiv none_ c) u) ->
+  (forall a b : T, neqb a b = true -> a = b) ->
+  forall (vt : variant) (s : sexpr T), sleaves_ok s -> wt s = true -> scalar_add_ok vt s ->
+  exists o : oexpr T, build vt s = Ok o /\ odom o = sdom s /\ oran o = sran s /\ ofunc o = sfunc s /\
+    forall x : list T, length x = dim (sdom s) -> eval o x = denote s x /\ eval_ip o x = denote s x.
+Proof. exact @Proofs.well_typed_evaluates. Qed.
+Print Assumptions well_typed_evaluates.
+
+Theorem well_typed_evaluates_repaired : forall (T : Type) (N : Num T),
+  ring_theory nzero none_ nadd nmul nsub nopp (@eq T) ->
+  (forall u c : T, ndiv u c = nmul (ndiv none_ c) u) ->
+  (forall a b : T, neqb a b = true -> a = b) ->
+  forall (vt : variant), v_vecsum_field vt = true ->
+  forall (s : sexpr T), sleaves_ok s -> wt s = true ->
+  exists o : oexpr T, build vt s = Ok o /\ odom o = sdom s /\ oran o = sran s /\ ofunc o = sfunc s /\
+    forall x : list T, length x = dim (sdom s) -> eval o x = denote s x /\ eval_ip o x = denote s x.
+Proof.
+  exact (fun T N Rth Hdiv Heqb vt V s L W =>
+           @Proofs.well_typed_evaluates T N Rth Hdiv Heqb vt s L W (scalar_add_ok_of_variant vt s V)).
+Qed.
+Print Assumptions well_typed_evaluates_repaired.
+
+(* non-vacuity at the executable instance: the interaction patterns named in the property are
+   well-typed, accepted, and built as the expected classes (kernel-evaluated at Q) *)
+Example patterns_accepted :
+  let A := SLeaf (LSq 0 2 [0%Q; 0%Q]) in           (* nonlinear *)
+  let B := SLeaf (LMat 1 2 [[1%Q; 2%Q]; [0%Q; 1%Q]]) in (* linear *)
+  let two := 2%Q in let three := 3%Q in
+  wt (SMul (SMulC A two) B) = true                                       (* (A*a)*B *)
+  /\ build variant_current (SMul (SMulC A two) B)
+     = Ok (OComp false (ORScal false (OLeaf (LSq 0 2 [0%Q; 0%Q])) two) (OLeaf (LMat 1 2 [[1%Q; 2%Q]; [0%Q; 1%Q]])))
+  /\ build variant_current (SMulC (SMulC A two) three)                   (* (A*a)*b merges *)
+     = Ok (ORScal false (OLeaf (LSq 0 2 [0%Q; 0%Q])) 6%Q)
+  /\ build variant_current (SMulC B two)                                 (* linear shortcut *)
+     = Ok (OLScal false (OLeaf (LMat 1 2 [[1%Q; 2%Q]; [0%Q; 1%Q]])) two)
+  /\ build variant_current (SCMul three (SCMul two A))                   (* b*(a*A) merges *)
+     = Ok (OLScal false (OLeaf (LSq 0 2 [0%Q; 0%Q])) 6%Q).
+Proof. vm_compute. repeat split; reflexivity. Qed.
